@@ -20,6 +20,7 @@ import (
 
 // Ctx carries the output streams and the single PRNG every random choice derives from.
 type Ctx struct {
+	mustRefuse string // oracle line for the current case if the implementation does not refuse it (xmlenc)
 	prop    string
 	tier    string
 	seed    int64
